@@ -55,6 +55,9 @@ package diff
 //@   call ir.AcquireCanonicalizer update acq = acq + 1
 //@   call ir.ReleaseCanonicalizer update rel = rel + 1
 //@   ensures [C01.pool] acq == rel && acq <= 1
+// C01: apart from the canonicaliser pool (whose objects are reset on release) nothing below GenerateFingerprint writes
+// package-level state, so a fingerprint cannot depend on what the process analysed before.
+//@   stateless [C01.state] except canonicalizerPool
 //@   ensures [C04.marker] len(fn.Blocks) > MaxFunctionBlocks ==> result.Fingerprint == "OVERSIZED"
 
 // ---- C10: reports do not depend on map iteration order
